@@ -119,6 +119,7 @@ def parse_tsc_text(meta):
 
 class C09(PropBase):
     id = "C09"
+    needs_cli = True     # the borrowed git-storage cases (C08's) run the real binary too
 
     # ------------------------------------------------------------------------------------ generation
     def gen(self, rng, tier, focus=None):
@@ -154,6 +155,12 @@ class C09(PropBase):
                                     dup=rng.choice([None] * 7 + ["inside", "outside", "split"]),
                                     flt=rng.choice(["all", "true", "begin", "end", "and", "and", "not", "or", "empty"]),
                                     selectors=rng.choice(["none", "some", "some", "all"])))
+        # the selected set is the same whatever storage it was read from: git storage with byte-identical journal files in one
+        # commit (one blob, two files, two transactions) is C08's comparison with the filesystem load, borrowed here
+        if not focus:
+            import c08
+            for c in c08.PROP.gen(rng, "quick", focus=True):
+                out.append(dict(c, delegate="c08", kind="git:" + str(c.get("kind", ""))))
         # digests and selector checksums in isolation
         for alg in ALGOS:
             for k in range(6 if q else 120):
